@@ -246,6 +246,8 @@ def check_spec(spec, meta, tier, index):
                     # (a) value
                     z = out['value']
                     obs['value_comparisons'] += 1
+                    if not run['budget']:
+                        obs['value_comparisons_full_budget:' + method] = obs.get('value_comparisons_full_budget:' + method, 0) + 1
                     if S == 'bool':
                         msg = C.close_tensor(z, exp, 'bool')
                     elif S == 'viterbi':
@@ -293,6 +295,10 @@ def finalize(tot, tier, seed):
     for k in ('value_comparisons', 'warned_runs', 'budget_runs', 'linear_valueerror_expected', 'linear_ok_expected'):
         if tot['obs'].get(k, 0) == 0:
             inc.append(f'monitor {k} never exercised')
+    for m in ('fixed-point', 'newton', 'linear'):
+        # a method whose every run ends in a warning is never compared: say so instead of reporting "held"
+        if tot['obs'].get('value_comparisons_full_budget:' + m, 0) == 0:
+            inc.append(f'method {m}: no run with the full iteration budget returned without a warning, so its values were never compared')
     for c in CLASSES:
         if tot['classes'].get(c, 0) == 0:
             inc.append(f'class {c} not run')
